@@ -17,7 +17,8 @@ import sys
 import numpy as np
 
 from ..contracts import attach, detach_all, quiet
-from ..polyhard import cfg32, clear_caches, warm32, layouts, is_c_contig, contig, order_containers
+from ..polyhard import (cfg32, clear_caches, warm32, layouts, is_c_contig, contig, order_containers, foreign_traffic, high_orders, seq_coord_kind_ok,
+                        coord_forms, more_order_containers, term_containers, ORDER_FORMS, NM_FORMS, PARAM_FORMS, INT_PARAM_FORMS, INT_HERMITE_MAX_ORDER)
 from ..util import precision
 
 RULE = ('every *_seq routine x order lists (ALL non-empty ascending subsets of {0..6}; gapped lists up to 40; singletons; '
@@ -33,12 +34,20 @@ RULE = ('every *_seq routine x order lists (ALL non-empty ascending subsets of {
         'order-list object shared by consecutive calls, arguments must be left intact, earlier results must survive, results overwritten before asking '
         'again); memory layouts of the coordinates (Fortran, transposed view, strided, window, reversed strides; 1-D, 2-D, 3-D); containers (list, tuple, '
         'int32 / int64 ndarray, list of numpy ints, range; numpy float64 parameters; term lists as tuples / lists / int ndarrays); config.precision = 32 '
-        'with float32 / float64 / 0-D coordinates (single-precision tolerance); order lists reaching 60, 100 (thorough: 150, 250)')
+        'with float32 / float64 / 0-D coordinates (single-precision tolerance); order lists reaching 60, 100 (thorough: 150, 250). Hardening pass 2: class D in the quick tier - '
+        'order lists reaching 171, 172, 200, 256, 400 (Hermite: 200) for every one-index routine; class E - forms the current tree accepts as the same input (table in '
+        'vp/polyhard.py): complex128 / complex64 coordinates for every routine, int64 / int32 / bool where listed, xy_seq with integer and complex coordinates; order lists as '
+        'lists of int64 / int32 / uint32 / uint64 / intp, unsigned ndarrays, dict key views, one-shot generators / iterators (judged against the list form); shape parameters as '
+        'numpy float64 / float32 / python int / numpy int64 incl. the lines alpha + beta = -1, 0 with alpha != beta; term lists in every accepted container, (n, m) as numpy '
+        'integers; norm / cartesian_grid omitted vs explicit, also after the other explicit value; class F - every routine judged after unmonitored traffic through the shared '
+        'tables from the other routines of the library')
 ASSUMPTIONS = ['the single-order routine is the oracle (its own correctness is C07 / C09)',
                'one-index order lists are in-domain when non-empty, non-negative and strictly ascending (the documented contract: '
                '"sorted orders"); other lists reaching a contract are excluded and counted',
                'coordinates of one call share one shape (r,t / x,y) except the documented separable xy grids',
-               'orders are python ints or numpy int32 / int64 / intp (8/16-bit numpy integers are out of domain: excluded and counted)',
+               'orders are python ints or numpy int32 / int64 / intp / uint32 / uint64 (8/16-bit numpy integers and unhashable 0-d arrays are out of domain: excluded and counted)',
+               'argument forms (class E): the accepted forms are DATA established on /repo @ faa8443 (vp/polyhard.py); coordinate dtype kinds a routine truncates today (integer / bool for '
+               'most *_seq, all of them for zernike_nm(_der)_seq and Q2d_seq) are excluded and counted; complex64 coordinates and float32-typed parameters are the single-precision class',
                'single-precision class (float32 coordinates or config.precision = 32): tolerance 2e-4',
                'emptying prysm\'s memo tables (functools cache_clear, where a helper offers it) never changes what a correct library returns']
 REQUIRED = ['alias.arguments-intact', 'alias.result-stable', 'seq.jacobi_seq', 'seq.jacobi_der_seq', 'seq.legendre_seq', 'seq.legendre_der_seq',
@@ -46,7 +55,8 @@ REQUIRED = ['alias.arguments-intact', 'alias.result-stable', 'seq.jacobi_seq', '
             'seq.cheby3_seq', 'seq.cheby3_der_seq', 'seq.cheby4_seq', 'seq.cheby4_der_seq',
             'seq.hermite_He_seq', 'seq.hermite_He_der_seq', 'seq.hermite_H_seq', 'seq.hermite_H_der_seq',
             'seq.laguerre_seq', 'seq.laguerre_der_seq', 'seq.dickson1_seq', 'seq.dickson2_seq',
-            'seq.Qbfs_seq', 'seq.Qcon_seq', 'seq.zernike_nm_seq', 'seq.zernike_nm_der_seq', 'seq.Q2d_seq', 'seq.xy_seq']
+            'seq.Qbfs_seq', 'seq.Qcon_seq', 'seq.zernike_nm_seq', 'seq.zernike_nm_der_seq', 'seq.Q2d_seq', 'seq.xy_seq',
+            'classD.very-high-orders', 'classE.argument-forms', 'classF.foreign-traffic']
 
 CTX = None
 HANDLED = [None]     # the exception object most recently classified by a contract (so the workload does not report it twice)
@@ -179,6 +189,51 @@ def in_domain_orders(ns):
     return ns
 
 
+def container_label(raw):
+    """Static label of the container / element type of an order list."""
+    if isinstance(raw, np.ndarray):
+        return f'ndarray-{raw.dtype}'
+    t = type(raw).__name__
+    try:
+        el = {type(v).__name__ + (f'[{v.dtype}]' if isinstance(v, np.ndarray) else '') for v in raw}
+    except TypeError:
+        return t
+    return t if el <= {'int'} else t + '-of-' + '|'.join(sorted(el))
+
+
+def form_of(fn, raw, params, x, rtol):
+    """Class E attribution: which single argument, put into its canonical form (float64 coordinates - the real part of complex ones -, python
+    int orders in a list, python float parameters), makes the sequence routine agree with the single-order routine again?  '' when none does
+    (the defect does not depend on the argument form) or when every argument already is canonical."""
+    sub, single, npar = ONE_INDEX[fn]
+    try:
+        ns = [int(n) for n in raw]
+    except TypeError:
+        return ''
+    xc = np.ascontiguousarray(x.real if x.dtype.kind == 'c' else x, dtype=np.float64)
+    pc = tuple(float(p) for p in params)
+    cands = []
+    if x.dtype != np.float64:
+        cands.append((f'x={x.dtype}', (raw, params, xc)))
+    if container_label(raw) != 'list':
+        cands.append((f'orders={container_label(raw)}', (ns, params, x)))
+    if any(type(p) is not float for p in params):
+        cands.append(('alpha,beta=' + '|'.join(sorted({type(p).__name__ for p in params})), (raw, pc, x)))
+
+    def right(o, p, xx):
+        with np.errstate(all='ignore'):
+            got = np.asarray(ORIG[fn](o, *p, xx))
+            ref = np.array([np.asarray(ORIG[single](n, *p, xx)) for n in ns])
+        return got.shape == ref.shape and not row_errors(got, ref, None, rtol)[0]
+    try:
+        for lab, (o, p, xx) in cands:
+            if right(o, p, xx):
+                return lab
+    except Exception:  # noqa
+        pass
+    return ''
+
+
 def make_one(fn):
     sub, single, npar = ONE_INDEX[fn]
     mon = 'seq.' + fn
@@ -186,20 +241,25 @@ def make_one(fn):
     def reference(ns, params, x):
         f = ORIG[single]
         ref = np.array([np.asarray(f(n, *params, x)) for n in ns])
-        extra = [float(np.max(np.abs(np.asarray(f(n - 1, *params, x), dtype=float)))) if n >= 1 else 0.0 for n in ns]
+        with np.errstate(all='ignore'):
+            extra = [float(np.max(np.abs(np.asarray(f(n - 1, *params, x))))) if n >= 1 else 0.0 for n in ns]
+        extra = [e if np.isfinite(e) else 0.0 for e in extra]
         return ref, extra
 
-    def classify(ns, params, x, ref, rtol):
+    def classify(ns, params, x, ref, rtol, raw=None):
         """Key for a failure on an in-domain call."""
         def recheck(tr):
             xx = x if tr is None else tr(x)
             with np.errstate(all='ignore'):
-                got = np.asarray(ORIG[fn](ns, *params, xx))
+                got = np.asarray(ORIG[fn](ns if raw is None else raw, *params, xx))       # the very same request (same container object)
                 r2, e2 = reference(ns, params, xx)
             return got.shape == r2.shape and not row_errors(got, r2, e2, rtol)[0]
         mech = mechanism(recheck, [x])
         if mech:
             return f'C08/{fn}/{mech}', f'the routine is right for the same request once the layout / call history is removed ({mech})'
+        form = form_of(fn, raw, params, x, rtol)
+        if form:
+            return f'C08/{fn}/form:{form}', f'the routine is right for the canonical form of the same request (python int orders, python float parameters, float64 coordinates): the defect is specific to the argument form {form}'
         if x.ndim != 1 and ravel_route_ok(lambda: ORIG[fn](ns, *params, x.reshape(-1)), ref, rtol):
             return nd_key(fn), 'is correct for the flattened coordinates but not for this coordinate shape'
         return None, None
@@ -219,25 +279,37 @@ def make_one(fn):
         if not isinstance(x, np.ndarray):
             CTX.skip(f'{fn}: coordinates are not an ndarray (out of domain)')
             return
+        if not seq_coord_kind_ok(fn, x.dtype.kind):
+            CTX.skip(f'{fn}: coordinate dtype kind outside the forms the routine accepts today (class E table of vp/polyhard.py: integer / bool / unsigned coordinates are truncated into the coordinate dtype)')
+            return
+        if x.dtype.kind in 'iub' and fn.startswith('hermite') and ns[-1] > INT_HERMITE_MAX_ORDER:
+            CTX.skip('Hermite polynomials of integer coordinates are computed in int64: orders beyond %d excluded' % INT_HERMITE_MAX_ORDER)
+            return
+        try:
+            params = tuple(p if isinstance(p, (int, float, np.floating, np.integer)) else float(p) for p in params)
+        except (TypeError, ValueError):
+            CTX.skip(f'{fn}: shape parameters are not real scalars (out of domain)')
+            return
         CTX.observe(mon)
         k = len(ns)
-        f32 = x.dtype == np.float32 or cfg32()
+        f32 = x.dtype in (np.float32, np.complex64) or cfg32() or any(isinstance(p, np.float32) for p in params)
         rtol = RTOL32 if f32 else RTOL
         desc = {'fn': fn, 'ns': ns if k <= 12 else ns[:12] + ['...'], 'params': [float(p) for p in params], 'xshape': list(x.shape),
-                'xclass': xcls(x.shape, k), 'list': list_class(ns), 'dtype': str(x.dtype)}
+                'xclass': xcls(x.shape, k), 'list': list_class(ns), 'dtype': str(x.dtype), 'orders_as': container_label(ns_raw),
+                'params_as': [type(p).__name__ for p in params]}
         with np.errstate(all='ignore'):
             ref, extra = reference(ns, params, x)
         want = (k, *x.shape)
         if exc is not None:
             HANDLED[0] = exc
-            key, why = classify(ns, params, x, ref, rtol)
+            key, why = classify(ns, params, x, ref, rtol, ns_raw)
             if key is None:
                 key, why = f'C08/{fn}/raises:{type(exc).__name__}/{list_class(ns).split(":")[0]}', ''
             CTX.violation(key, f'{fn} raises {type(exc).__name__} on an in-domain call ({str(exc)[:100]}); ' + why, desc, symptom='raises')
             return
         got = np.asarray(result)
         if got.shape != want:
-            key, why = classify(ns, params, x, ref, rtol)
+            key, why = classify(ns, params, x, ref, rtol, ns_raw)
             if key is None:
                 key = f'C08/{fn}/shape/{xcls(x.shape, k)}'
             CTX.violation(key, f'{fn} returns shape {got.shape}, expected (len(orders), *x.shape) = {want}; {why or ""}', desc,
@@ -245,9 +317,10 @@ def make_one(fn):
             return
         bad, worst = row_errors(got, ref, extra, rtol)
         if bad:
-            key, why = classify(ns, params, x, ref, rtol)
+            key, why = classify(ns, params, x, ref, rtol, ns_raw)
             if key is None:
-                key = f'C08/{fn}/value/{list_class(ns).split(":")[0]}'
+                # every failing row is an order at / beyond 171 (where n! leaves double precision): one mechanism class whatever the list looks like
+                key = f'C08/{fn}/value/orders>=171' if min(ns[i] for i in bad) >= 171 else f'C08/{fn}/value/{list_class(ns).split(":")[0]}'
             CTX.violation(key, f'{fn}[k] != {single}(orders[k]) for some requested order; {why or ""}', desc, symptom='value',
                           failing_orders=[ns[i] for i in bad][:8], err_over_tol=worst)
 
@@ -262,6 +335,33 @@ def make_one(fn):
 # ------------------------------------------------------------------------------------------ two-index contracts
 def zmclass(m):
     return 'm=0' if m == 0 else ('m>0' if m > 0 else 'm<0')
+
+
+def raw_terms(args, kwargs):
+    return kwargs.get('nms', kwargs.get('mns', args[0] if args else None))
+
+
+def form_of_two(fn, raw, idx, coords, single, kwargs, rtol):
+    """Class E attribution for the two-index sequence routines: the term list as a list of python-int tuples, or float64 coordinates (the real part
+    of complex ones), makes the routine agree with the single-term routine again -> the defect is specific to that argument form."""
+    kw = {k: v for k, v in kwargs.items() if k in ('norm', 'cartesian_grid')}
+    cands = []
+    lab = container_label([tuple(e) for e in raw]) if not isinstance(raw, np.ndarray) else f'ndarray-{raw.dtype}'
+    plain = isinstance(raw, list) and all(isinstance(e, tuple) and all(type(v) is int for v in e) for e in raw)
+    if not plain:
+        cands.append((f'terms={type(raw).__name__ if not isinstance(raw, np.ndarray) else lab}', (list(idx), coords)))
+    if any(c.dtype != np.float64 for c in coords):
+        cands.append((f'x={coords[0].dtype}', (raw, [np.ascontiguousarray(c.real if c.dtype.kind == 'c' else c, dtype=np.float64) for c in coords])))
+    try:
+        for lb, (terms, cc) in cands:
+            with np.errstate(all='ignore'):
+                got = np.asarray(ORIG[fn](terms, cc[0], cc[1], **kw))
+                ref = np.array([single(i, cc) for i in idx])
+            if got.dtype != object and got.shape == ref.shape and not row_errors(got, ref, None, rtol)[0]:
+                return lb
+    except Exception:  # noqa
+        pass
+    return ''
 
 
 def make_two(fn):
@@ -301,9 +401,12 @@ def make_two(fn):
         if not all(isinstance(c, np.ndarray) for c in coords):
             CTX.skip(f'{fn}: coordinates are not ndarrays (out of domain)')
             return
+        if not all(c.dtype.kind in ('fic' if fn == 'xy_seq' else 'f') for c in coords):
+            CTX.skip(f'{fn}: coordinate dtype kind outside the forms the routine accepts today (class E table: zernike_nm(_der)_seq / Q2d_seq truncate integer coordinates)')
+            return
         CTX.observe(mon)
         k = len(idx)
-        f32 = any(c.dtype == np.float32 for c in coords) or cfg32()
+        f32 = any(c.dtype in (np.float32, np.complex64) for c in coords) or cfg32()
         rtol = RTOL32 if f32 else RTOL
         desc = {'fn': fn, 'idx': idx if k <= 10 else idx[:10] + ['...'], 'shapes': [list(c.shape) for c in coords],
                 'xclass': xcls(coords[0].shape, k), 'dtype': str(coords[0].dtype)}
@@ -326,6 +429,9 @@ def make_two(fn):
             mech = mechanism(recheck, coords)
             if mech:
                 return f'C08/{fn}/{mech}'
+            form = form_of_two(fn, raw_terms(args, kwargs), idx, coords, single, kwargs, rtol)
+            if form:
+                return f'C08/{fn}/form:{form}'
             if same_shape and coords[0].ndim != 1 and ravel_route_ok(lambda: recall([c.reshape(-1) for c in coords]), ref, rtol) \
                     and not (fn == 'xy_seq' and extra_desc['cartesian_grid']):
                 return f'C08/{fn}/x.ndim!=1'
@@ -672,6 +778,162 @@ def high_order_units(ctx, P, rng, fns, tops):
                     call(ctx, P, fn, desc, ns, *par, x)
 
 
+# ------------------------------------------------------------------------------------------ hardening pass 2 (HARDENING2.md D in the quick tier, E, F)
+def fam_of(fn):
+    return ONE_INDEX[fn][1]
+
+
+def judge_unseen(ctx, fn, got, want, desc, form):
+    """A one-shot generator / iterator of orders is consumed by the routine: the contract cannot read the request back, so the result is compared
+    here with the ORIGINAL routine's answer for the same orders in a list (which the contracts judge against the single-order routine)."""
+    ctx.observe('seq.' + fn)
+    got, want = np.asarray(got), np.asarray(want)
+    ok = got.shape == want.shape and not row_errors(got, want, None, RTOL)[0]
+    ctx.require('seq.' + fn, ok, f'C08/{fn}/form:{form}', f'{fn}: the result for the order list given as {form} differs from the result for the same orders in a list', desc)
+
+
+def very_high_units(ctx, P, rng, fns):
+    """Class D in the quick tier too: order lists reaching 171, 172, 200, 256, 400 (171! leaves double precision: closed-form normalisations
+    overflow there although the polynomial values stay moderate), per family up to its numerically meaningful limit; cheap 1-D coordinates."""
+    for fn in fns:
+        npar = ONE_INDEX[fn][2]
+        for pi, par in enumerate(PARAMS[npar][:2]):
+            for top in high_orders(fn, not ctx.quick):
+                lists = [[top], [0, top], [top - 1, top]] + ([[1, 170, 171, 172]] if top == 172 else []) + ([list(range(0, top + 1, 37)) + [top]] if top in (200, 400) else [])
+                for li, ns in enumerate(lists):
+                    if pi and li:
+                        continue
+                    ns = sorted(set(ns))
+                    x = xdom(fn, rng, (3,)) if li != 1 else xdom(fn, rng, (2, 2))
+                    desc = {'wl': 'very-high-order', 'fn': fn, 'ns': ns if len(ns) <= 6 else [ns[0], '..', ns[-1]], 'params': list(par), 'class': f'{fn}:very-high-order'}
+                    ctx.case(desc)
+                    ctx.observe('classD.very-high-orders')
+                    call(ctx, P, fn, desc, ns if li % 2 else np.array(ns), *par, x)
+
+
+def coord_kind_units(ctx, P, rng, fns):
+    """Class E, dtype kind of the coordinate array: complex128 (1-D, 2-D, 0-D, real-valued), complex64 (single-precision class) for every
+    sequence routine; int64 / int32 / bool arrays where the class E table lists the routine (others are excluded and counted by the contract)."""
+    for fn in fns:
+        npar = ONE_INDEX[fn][2]
+        lo, hi = domain(fn)
+        par = PARAMS[npar][0]
+        for lab, kind, xv, xf in coord_forms(lo, hi, seq=True):
+            for ns in ([0, 1, 2, 3], [2, 5], [1], [0, 3, 8, 12], [7], [0]) + ctx.pick((), ([0, 1, 2, 3, 4, 5, 6, 7, 8], [3, 4], [2], [1, 2, 19], [4, 9, 25, 40], [12], [0, 2], [5, 6, 7], [0, 41])):
+                if lab == 'complex64-1d' and ns[-1] > 8:
+                    continue
+                desc = {'wl': 'coordinate-kind', 'fn': fn, 'ns': ns, 'params': list(par), 'x': lab, 'class': f'{fn}:x-as-{lab}'}
+                ctx.case(desc, nontrivial=ns[-1] >= 1)
+                ctx.observe('classE.argument-forms')
+                call(ctx, P, fn, desc, ns, *par, xv)
+
+
+def order_form_units(ctx, P, rng, fns):
+    """Class E, forms of the order list: every element type of ORDER_FORMS (python int, int64, int32, uint32, uint64, intp, 0-d arrays), unsigned
+    ndarrays, dict key views, one-shot generators / iterators where the routine accepts them."""
+    for fn in fns:
+        npar = ONE_INDEX[fn][2]
+        par = PARAMS[npar][1 % len(PARAMS[npar])]
+        x = xdom(fn, rng, (4,))
+        for ns in ([0, 1, 2, 3], [2, 5, 19], [1], [0], [3, 4, 5]) + ctx.pick((), ([0, 2, 4, 6, 8], [1, 3], [2], [7, 41], [0, 1], [4, 5, 6, 7, 18, 19])):
+            for lab, mk in ORDER_FORMS:
+                desc = {'wl': 'order-forms', 'fn': fn, 'ns': ns, 'orders_as': 'list-of-' + lab, 'params': list(par), 'class': f'{fn}:orders-as-list-of-{lab}'}
+                ctx.case(desc, nontrivial=ns[-1] >= 1)
+                call(ctx, P, fn, desc, [mk(n) for n in ns], *par, x)
+            for lab, mk in more_order_containers(ns, fn):
+                desc = {'wl': 'order-forms', 'fn': fn, 'ns': ns, 'orders_as': lab, 'params': list(par), 'class': f'{fn}:orders-as-{lab}'}
+                ctx.case(desc, nontrivial=ns[-1] >= 1)
+                got = call(ctx, P, fn, desc, mk(), *par, x)
+                if lab in ('generator', 'iterator') and got is not None:
+                    with quiet(), np.errstate(all='ignore'):
+                        want = ORIG[fn](ns, *par, x)
+                    judge_unseen(ctx, fn, got, want, desc, 'orders=' + lab)
+
+
+def param_form_units(ctx, P, rng):
+    """Class E, forms of the shape parameters: numpy float64, numpy float32 (single-precision class), python int / numpy int64 for integer values;
+    the parameter lines alpha + beta = -1 and = 0 with alpha != beta."""
+    for fn in [f for f in ONE_INDEX if ONE_INDEX[f][2]]:
+        npar = ONE_INDEX[fn][2]
+        plist = {2: [(0.25, -0.25), (-0.25, -0.75), (-0.75, -0.25), (0.75, -0.75), (1.5, 0.5)], 1: [(0.5,), (-0.75,), (1.5,)]}[npar]
+        ilist = {2: [(0, 4), (1, 0), (2, 1)], 1: [(0,), (2,), (-1,) if fn.startswith('dickson') else (1,)]}[npar]
+        x = xdom(fn, rng, (4,))
+        for ns in ([0, 1, 2, 3], [2, 7], [1], [12]):
+            for par in plist:
+                for lab, mk, exact in PARAM_FORMS:
+                    desc = {'wl': 'parameter-forms', 'fn': fn, 'ns': ns, 'params': list(par), 'params_as': lab, 'class': f'{fn}:params-as-{lab}'}
+                    ctx.case(desc, nontrivial=ns[-1] >= 1)
+                    call(ctx, P, fn, desc, ns, *[mk(v) for v in par], x)
+            for par in ilist:
+                for lab, mk, exact in INT_PARAM_FORMS:
+                    desc = {'wl': 'parameter-forms', 'fn': fn, 'ns': ns, 'params': list(par), 'params_as': lab, 'class': f'{fn}:params-as-{lab}'}
+                    ctx.case(desc, nontrivial=ns[-1] >= 1)
+                    call(ctx, P, fn, desc, ns, *[mk(v) for v in par], x)
+
+
+def two_index_forms(ctx, P, rng):
+    """Class E for the two-index routines: term lists in every accepted container, (n, m) as numpy integers, norm / cartesian_grid omitted vs
+    explicit (also after a call that passed the other explicit value), integer / complex coordinates for xy_seq."""
+    r = rng.uniform(0.05, 1, 4)
+    t = rng.uniform(0, 6.28, 4)
+    for fn, L, kws in (('zernike_nm_seq', [(4, 2), (4, -2), (2, 0), (19, 1), (3, 3)], [{}, {'norm': False}]), ('zernike_nm_der_seq', [(5, 3), (3, -1), (0, 0), (4, 0)], [{'norm': False}, {}]),
+                       ('Q2d_seq', [(3, 2), (3, -2), (2, 0), (19, 1), (0, 1)], [{}]), ('xy_seq', [(2, 3), (0, 1), (2, 0), (0, 0)], [{'cartesian_grid': False}])):
+        for kw in kws:
+            for lab, cont in term_containers(L, fn):
+                desc = {'wl': 'term-forms', 'fn': fn, 'terms_as': lab, 'opt': str(kw), 'class': f'{fn}:terms-as-{lab}'}
+                ctx.case(desc)
+                call(ctx, P, fn, desc, cont, r, t, **kw)
+            for lab, mk in NM_FORMS:
+                desc = {'wl': 'term-forms', 'fn': fn, 'terms_as': 'list-of-' + lab, 'opt': str(kw), 'class': f'{fn}:terms-as-list-of-{lab}'}
+                ctx.case(desc)
+                call(ctx, P, fn, desc, [(mk(a), mk(b)) for a, b in L], r, t, **kw)
+    # omitted vs explicit default, also after the other explicit value
+    nms = [(4, 2), (3, -1), (2, 0), (5, 5)]
+    for step, kw in enumerate(({'norm': False}, {}, {'norm': True}, {}, {'norm': False}, {})):
+        for fn in ('zernike_nm_seq', 'zernike_nm_der_seq'):
+            desc = {'wl': 'option-forms', 'fn': fn, 'opt': str(kw) or 'omitted', 'step': step, 'class': f'{fn}:norm-{"omitted" if not kw else kw["norm"]}'}
+            ctx.case(desc)
+            call(ctx, P, fn, desc, nms, r, t, **kw)
+    xv, yv = rng.uniform(-1, 1, 4), rng.uniform(-1, 1, 3)
+    X, Y = np.meshgrid(xv, yv)
+    for step, kw in enumerate(({'cartesian_grid': False}, {}, {'cartesian_grid': True}, {})):
+        desc = {'wl': 'option-forms', 'fn': 'xy_seq', 'opt': str(kw) or 'omitted', 'step': step, 'class': f'xy_seq:cartesian_grid-{"omitted" if not kw else kw["cartesian_grid"]}'}
+        ctx.case(desc)
+        call(ctx, P, 'xy_seq', desc, [(2, 1), (0, 3), (1, 0), (0, 0)], X, Y, **kw)
+    xi, yi = np.array([-2, -1, 0, 1, 2]), np.array([2, 0, 1, -1, 3])
+    for lab, xa, ya in (('int64', xi, yi), ('int32', xi.astype(np.int32), yi.astype(np.int32)), ('complex128', xi * 0.25 + 0.5j, yi * 0.25 - 0.125j),
+                        ('int64-2d', np.array([xi, yi]), np.array([yi, xi]))):
+        desc = {'wl': 'coordinate-kind', 'fn': 'xy_seq', 'x': lab, 'class': f'xy_seq:x-as-{lab}'}
+        ctx.case(desc)
+        call(ctx, P, 'xy_seq', desc, [(2, 3), (0, 1), (2, 0), (0, 0), (1, 1)], xa, ya, cartesian_grid=False)
+    Xi, Yi = np.meshgrid(np.arange(-2, 3), np.arange(-1, 3))
+    desc = {'wl': 'coordinate-kind', 'fn': 'xy_seq', 'x': 'int64-meshgrid', 'class': 'xy_seq:x-as-int64-meshgrid'}
+    ctx.case(desc)
+    call(ctx, P, 'xy_seq', desc, [(2, 3), (0, 1), (2, 0)], Xi, Yi)
+
+
+def foreign_units(ctx, P, rng, fns):
+    """Class F: traffic through the shared recurrence tables from the OTHER routines of the library (value / derivative / Clenshaw / change of
+    basis / fit, precision 32, numpy-typed orders, in-place-prone paths) first, unjudged; then the sequence routines are judged as usual."""
+    for rep, ns in enumerate(([0, 1, 2, 3, 4, 5], [2, 9], [3, 18, 19], [0, 41], [1, 7, 33])):
+        ctx.event('foreign-traffic-raised', foreign_traffic(P, rep))
+        ctx.observe('classF.foreign-traffic')
+        for fn in fns:
+            npar = ONE_INDEX[fn][2]
+            par = PARAMS[npar][rep % len(PARAMS[npar])]
+            x = xdom(fn, rng, (4,) if rep % 2 else (2, 3))
+            desc = {'wl': 'foreign-traffic', 'fn': fn, 'ns': ns, 'params': list(par), 'class': f'{fn}:after-foreign-traffic'}
+            ctx.case(desc)
+            call(ctx, P, fn, desc, ns, *par, x)
+        r, t = rng.uniform(0.05, 1, 5), rng.uniform(0, 6.28, 5)
+        top = ns[-1]
+        for fn, L, kw in (('zernike_nm_seq', [(2 * top + 4, 4), (2 * top + 4, -4), (2 * top, 0), (3, 1)], {'norm': bool(rep % 2)}), ('zernike_nm_der_seq', [(2 * top + 1, 1), (4, 0), (3, -1)], {}),
+                          ('Q2d_seq', [(top, 0), (top, 2), (ns[0], -2), (top, 1)], {}), ('xy_seq', [(top % 7, 2), (0, 1), (3, 0)], {'cartesian_grid': False})):
+            desc = {'wl': 'foreign-traffic', 'fn': fn, 'class': f'{fn}:after-foreign-traffic'}
+            ctx.case(desc)
+            call(ctx, P, fn, desc, L, r, t, **kw)
+
+
 def hardening(ctx, P, counter):
     fns = list(ONE_INDEX)
 
@@ -700,6 +962,20 @@ def hardening(ctx, P, counter):
             cfg32_units(ctx, P, ctx.rng('cfg32', i), fns[i:i + 4])
         if mine():
             high_order_units(ctx, P, ctx.rng('high', i), fns[i:i + 4], ctx.pick((60, 100), (60, 100, 150, 250)))
+    for i in range(0, len(fns), 4):
+        if mine():
+            very_high_units(ctx, P, ctx.rng('very-high', i), fns[i:i + 4])
+        if mine():
+            coord_kind_units(ctx, P, ctx.rng('coord-kind', i), fns[i:i + 4])
+        if mine():
+            order_form_units(ctx, P, ctx.rng('order-forms', i), fns[i:i + 4])
+    for i in range(0, len(fns), 8):
+        if mine():
+            foreign_units(ctx, P, ctx.rng('foreign', i), fns[i:i + 8])
+    if mine():
+        param_form_units(ctx, P, ctx.rng('param-forms'))
+    if mine():
+        two_index_forms(ctx, P, ctx.rng('two-index-forms'))
     if mine():
         layout_two(ctx, P, ctx.rng('layout-two'))
     if mine():
